@@ -343,6 +343,35 @@ pub fn run(run: &Run) {
             }
         }
     });
+    // fill values that are themselves infinite or NaN (log-density tables filled with -inf): the fill mode returns
+    // the left or the right one, as it is
+    for (fl, fr) in [(f64::NEG_INFINITY, f64::NEG_INFINITY), (f64::NAN, 0.0), (1.0, f64::INFINITY), (f64::INFINITY, -2.5), (0.0, f64::NAN), (f64::NAN, f64::NAN)] {
+        for x in [vec![0.0, 1.0, 3.0], vec![-2.0, -1.0, 0.5, 4.0, 9.0], (0..50).map(|i| i as f64 * 0.5).collect::<Vec<f64>>()] {
+            let n = x.len();
+            let y: Vec<f64> = (0..n).map(|i| ((i * i) % 7) as f64 - 3.0).collect();
+            for checked in [true, false] {
+                let ts = [x[0] - 1.0, x[0] - 1e-9, x[n - 1] + 1e-9, x[n - 1] + 100.0, x[0], x[n - 1], 0.5 * (x[0] + x[1])];
+                run.case();
+                run.tr();
+                run.ok();
+                run.nontrivial(1);
+                let r = guard(|| if checked { interp1d_linear(&x, &y, &ts, ExtrapolationMode::Fill(fl, fr)).v.clone() } else { interp1d_linear_unchecked(&x, &y, &ts, ExtrapolationMode::Fill(fl, fr)).v.clone() });
+                let same = |a: f64, b: f64| a.to_bits() == b.to_bits() || (a.is_nan() && b.is_nan());
+                match r {
+                    Ok(v) if v.len() == ts.len() => {
+                        let want = [fl, fl, fr, fr, y[0], y[n - 1], 0.5 * (y[0] + y[1])];
+                        if let Some(i) = (0..ts.len()).find(|&i| !same(v[i], want[i]) && !(i == 6 && (v[i] - want[i]).abs() <= 1e-12)) {
+                            run.violate("Fill/non-finite-fill-values", || format!("{} knots, Fill({:e}, {:e}), {}: target {:e} gives {:e}, expected {:e}", n, fl, fr, if checked { "checked" } else { "unchecked" }, ts[i], v[i], want[i]));
+                        } else {
+                            run.regime("non-finite-fill-values");
+                        }
+                    }
+                    Ok(v) => run.violate("wrong-output-length", || format!("{} outputs for {} targets", v.len(), ts.len())),
+                    Err(p) => run.violate("Fill/panic", || format!("Fill({:e}, {:e}): {}", fl, fr, p)),
+                }
+            }
+        }
+    }
     // rejection: permutations of 3- and 4-knot sets
     for k in [3usize, 4] {
         let base: Vec<f64> = LATTICE[1..1 + k].to_vec();
